@@ -38,7 +38,13 @@ def shapes():
              "prods": [["L", "A", None, [["v", G.IR01]]], ["K", "A", None, [["v", G.IR22]]], ["P", "A", None, [["x", G.ref("A")]]]], "start": "A"}
     nested = {"name": "WN", "abstract": [["A", None, "ABC"], ["B", "A", "decorator"]],
               "prods": [["L", "A", None, [["v", G.IR01]]], ["M", "B", None, [["v", G.IR22]]], ["N", "B", None, [["a", G.ref("A")]]]], "start": "A"}
-    return [two, three, nested]
+    nested_start = {"name": "WNs", "abstract": [["A", None, "ABC"], ["B", "A", "decorator"]],
+                    "prods": [["L", "A", None, [["v", G.IR01]]], ["M", "B", None, [["v", G.IR22]]], ["N", "B", None, [["a", G.ref("A")]]]],
+                    "start": "B", "considered": ["A", "L", "M", "N"]}
+    concrete_start = {"name": "WCs", "abstract": [["A", None, "ABC"]],
+                      "prods": [["L", "A", None, [["v", G.IR01]]], ["K", "A", None, [["v", G.IR22]]], ["P", "A", None, [["x", G.ref("A")]]]],
+                      "start": "P", "considered": ["A", "L", "K"]}
+    return [two, three, nested, nested_start, concrete_start]
 
 
 def assignments(spec, tier):
@@ -51,6 +57,9 @@ def assignments(spec, tier):
             continue
         asg = dict(zip(slots, combo))
         ok = True
+        considered = spec.get("considered")
+        if considered is not None and not any(asg.get(c) is not None for c in considered):
+            continue  # weights are only taken into account when a *supplied* class carries one
         for a in view.abstract:
             ws = [1 if asg.get(c) is None else asg[c] for c in view.productions(a)]
             if not any(w > 0 for w in ws):
@@ -64,6 +73,9 @@ def units(tier, seed):
     for spec in shapes():
         for asg in assignments(spec, tier):
             us.append({"kind": "weights", "spec": spec, "weights": asg, "extractions": 3})
+    for spec in shapes()[:3]:
+        for zero in [p[0] for p in spec["prods"]]:
+            us.append({"kind": "reweight", "spec": spec, "zero": zero})
     for spec in shapes():
         for asg in list(assignments(spec, tier))[:: 1 if tier != "quick" else 3]:
             if any(w == 0 for w in asg.values()) and _terminates_without_zero(spec, asg):
@@ -221,8 +233,73 @@ def _nodes(v):
     return out
 
 
+def run_reweight(unit) -> UnitResult:
+    """A decider that has already made choices keeps respecting the weights after they are changed through the
+    public Grammar.update_weights (here: one production is driven to weight zero)."""
+    r = UnitResult()
+    spec, zero = unit["spec"], unit["zero"]
+    asg = {p[0]: 2 for p in spec["prods"]}
+    if not _terminates_without_zero(spec, {zero: 0}):
+        return r
+    b = build_weighted(spec, asg)
+    try:
+        g = b.extract()
+        log: list = []
+
+        class LoggingPT(ProgressivelyTerminalDecider):
+            def choose_production_alternatives(self, ty, alternatives, ctx):
+                c = super().choose_production_alternatives(ty, alternatives, ctx)
+                log.append((list(alternatives), c))
+                return c
+
+        from mc.explorer import ExhaustiveSource
+
+        # first use of the decider with the original weights, then the weight change (outside the explored call)
+        src0 = ExhaustiveSource((), horizon=200)
+        dec = LoggingPT(src0, g)
+        try:
+            TreeBasedRepresentation(g, dec).create_genotype(src0)
+        except BaseException:  # noqa
+            pass
+        w = g.get_weights()
+        extra = {c: 0.0 for c in w}
+        extra[b.classes[zero]] = -w[b.classes[zero]]
+        g.update_weights(1, extra)
+
+        def run(src):
+            # the decider lives across the weight change; its random source is re-pointed at the explorer's
+            dec.random = src
+            log.clear()
+            try:
+                return TreeBasedRepresentation(g, dec).create_genotype(src)
+            finally:
+                run.last = list(log)
+
+        st = ExploreStats()
+        first = True
+        for ex in explore(run, max_execs=300, horizon=25, stats=st):
+            r.executions += 1
+            gw = g.get_weights()
+            for alts, c in getattr(run, "last", []):
+                r.count("production_choices_logged")
+                if gw.get(c, 1) == 0 and any(gw.get(x, 1) > 0 for x in alts):
+                    r.add_violation(Violation(PROP, "ProgressivelyTerminalDecider.choose_production_alternatives", "zero-weight-chosen", {"after_reweighting": True},
+                                              {"unit": unit, "choices": list(ex.choices)},
+                                              f"{spec['name']}: after update_weights drove {zero} to 0, the decider that was already in use chose {tname(c)} among "
+                                              f"{[tname(x) for x in alts]} with weights {[gw.get(x, 1) for x in alts]}"))
+        r.nontrivial += 1
+        r.states = 1
+        r.capped += st.capped_paths
+        r.samples.append({"shape": spec["name"], "zeroed_by_update_weights": zero, "paths": st.executions})
+    finally:
+        b.cleanup()
+    return r
+
+
 def run_unit(unit) -> UnitResult:
     P.patch_stack_horizon()
+    if unit["kind"] == "reweight":
+        return run_reweight(unit)
     return run_weights(unit) if unit["kind"] == "weights" else run_chooser(unit)
 
 
